@@ -41,9 +41,13 @@ MSG_OK = [("not ready", "not ready"), ("waiting on x", "waiting on x"), ("m", "m
           ('="a" + "b"', "ab"), ("=string(inputs.n)", "5"), ("=inputs.n", "5"), ("Resource: a/b, c.", "Resource: a/b, c."),
           ('=inputs.s + "-" + inputs.s', "str-str")]
 MSG_FAIL = ["=inputs.missing", "=1/0", '="a" + 1', '=split(inputs.s, "")', "=to_ref({})"]
-# delays for the schema-bypassing path: (source, abstract)
+# delays for the schema-bypassing path: (source, abstract) — abstract = what `int(delay)` + the whole-number rule
+# of the repaired retry arm (/repo 7c6f12a, F13) gives: an int, a bool (0/1), an integral float, a numeral string ⇒ that
+# integer (measured on /repo b49864f: `=2.0` ⇒ 2, `=0.0 - 3.0` ⇒ -3); a fractional float or anything int() rejects ⇒
+# notInt (PermFail 'Invalid retry delay')
 DELAY_ODD = [("=inputs.n", "5"), ("=1/0", "failed"), ("=inputs.missing", "failed"), ('="abc"', "notInt"), ("=1.5", "notInt"),
-             ("=true", "notInt"), ('="12"', "12"), ("=0 - 4", "-4"), ("=[1]", "notInt")]
+             ("=true", "1"), ("=false", "0"), ("=2.0", "2"), ("=0.0 - 3.0", "-3"), ('="12"', "12"), ('="1.0"', "notInt"),
+             ("=0 - 4", "-4"), ("=[1]", "notInt"), ("=null", "notInt"), ("={}", "notInt")]
 DELAY_INT = [0, 1, 5, 7, 30, 60, 3600, -1]
 
 
